@@ -6,7 +6,7 @@ fn tokens_exit() {
     // every small entry state of do_force_return_tokens
     for top_level in [0, 2] {
         for my_tokens in 0..=2 {
-            for cheats in 0..=my_tokens.min(1) {
+            for cheats in 0..=2 {
                 for n in 0..=2usize {
                     let (ok, mt, ch, tok, cheat) =
                         redo::verif::jobserver::force_return_tokens_probe(my_tokens, cheats, n, top_level);
